@@ -326,7 +326,9 @@ pub fn run_sign(scn: &Scenario, ctx: &mut Ctx) {
                     Err(p) => ctx.violate_sig("C16.no-panic", format!("is_verified_signature / verify_signature panicked: {}", p), p),
                 }
                 let note = if st.arg(2) % 2 == 0 { Some("countersigned copy") } else { None };
-                match guarded(|| env.add_assertion_envelope(env.make_signed_assertion(&sig, note))) {
+                // every third time the note is put on the signature object itself: 'signed': Signature ['note': ..]
+                let decorated_object = st.arg(2) % 3 == 2;
+                match guarded(|| if decorated_object { env.add_assertion_envelope(Envelope::new_assertion(known_values::SIGNED, Envelope::new(sig.clone()).add_assertion(known_values::NOTE, "kept with the signature"))) } else { env.add_assertion_envelope(env.make_signed_assertion(&sig, note)) }) {
                     Ok(Ok(e)) => {
                         s.env = e;
                         if !s.unknown.contains(&(sch, id)) {
@@ -702,7 +704,7 @@ pub fn generate_sign(property: &str, r: &mut SimRng, seed: u64) -> Scenario {
         match r.below(20) {
             0..=3 => scn.push("S.Sign", &[r.below(16), r.below(3), r.below(9)]),
             4 => scn.push("S.SignBatch", &[r.next(), r.below(4)]),
-            5 => scn.push("S.Detached", &[r.below(4), r.below(3), r.below(2)]),
+            5 => scn.push("S.Detached", &[r.below(4), r.below(3), r.below(6)]),
             6 => scn.push("S.AddOther", &[r.below(5), r.below(100)]),
             7..=8 => scn.push("S.ObscureSubject", &[r.below(3), r.below(4)]),
             9 => scn.push("S.ObscureOther", &[r.below(8), r.below(3)]),
@@ -918,7 +920,17 @@ pub fn run_recip(scn: &Scenario, ctx: &mut Ctx) {
                 };
                 let late_id = ((st.arg(2) >> 20) % 6) as u8;
                 let (_, late_pk) = keys::encap(scheme_of(late_id), late_id);
-                let e2 = first.add_recipient(&late_pk, &ck);
+                let e2 = if (st.arg(3) >> 3) % 3 == 1 {
+                    // the owner opens the subject with the content key, adds the recipient while the subject is in the
+                    // clear, and encrypts again with the same content key
+                    ctx.probe("recipient-added-while-subject-in-the-clear");
+                    match guarded(|| first.decrypt_subject(&ck).map(|open| open.add_recipient(&late_pk, &ck)).and_then(|x| x.encrypt_subject(&ck))) {
+                        Ok(Ok(x)) => x,
+                        _ => continue,
+                    }
+                } else {
+                    first.add_recipient(&late_pk, &ck)
+                };
                 ctx.probe("recipient-added-later");
                 let second = match transmit(ctx, &e2) {
                     Some(x) => x,
@@ -1125,10 +1137,15 @@ pub fn run_sskr(scn: &Scenario, ctx: &mut Ctx) {
         let maxg = scn.cfg("maxgroups", 3);
         let maxm = scn.cfg("maxmembers", 4);
         let mut pr = SimRng::new(st.arg(1));
-        let ng = pr.range(1, maxg) as usize;
+        // now and then a policy with many groups (SSKR allows sixteen), one or two members each
+        let many = pr.chance(1, 10);
+        let ng = if many { pr.range(9, 14) as usize } else { pr.range(1, maxg) as usize };
+        if many {
+            ctx.probe("nine-or-more-groups");
+        }
         let mut groups: Vec<(usize, usize)> = vec![];
         for _ in 0..ng {
-            let count = pr.range(1, maxm) as usize;
+            let count = if many { pr.range(1, 2) as usize } else { pr.range(1, maxm) as usize };
             let thr = if count == 1 { 1 } else { pr.range(2, count as u64) as usize };
             groups.push((thr, count));
         }
